@@ -180,10 +180,12 @@ class Workdir:
     def __exit__(self, *a): shutil.rmtree(self.path, ignore_errors=True)
     def file(self, name): return os.path.join(self.path, name)
 
-def build_harness(wd, name, sources, extra=(), libs=()):
+MSAN_CFLAGS = ["-g", "-O1", "-fsanitize=memory", "-fsanitize-memory-track-origins=1", "-fno-omit-frame-pointer", "-D" + GUARD, "-w"]
+
+def build_harness(wd, name, sources, extra=(), libs=(), cflags=None):
     out = wd.file(name)
     srcs = [s if os.path.isabs(s) else os.path.join(HARNESS, s) for s in sources]
-    cmd = ["clang-14"] + CFLAGS + ["-I" + REPO, "-I" + HARNESS] + list(extra) + ["-o", out] + srcs + list(libs)
+    cmd = ["clang-14"] + (cflags or CFLAGS) + ["-I" + REPO, "-I" + HARNESS] + list(extra) + ["-o", out] + srcs + list(libs)
     rc, o = run(cmd, timeout=600)
     if rc != 0:
         raise HarnessBuildError(name + ": " + o[-1500:])
@@ -192,7 +194,7 @@ def build_harness(wd, name, sources, extra=(), libs=()):
 class HarnessBuildError(Exception):
     pass
 
-ASAN_ENV = dict(os.environ, ASAN_OPTIONS="detect_leaks=0:abort_on_error=0:exitcode=99:allocator_may_return_null=1",
+ASAN_ENV = dict(os.environ, MSAN_OPTIONS="exitcode=97:abort_on_error=0", ASAN_OPTIONS="detect_leaks=0:abort_on_error=0:exitcode=99:allocator_may_return_null=1",
                 UBSAN_OPTIONS="print_stacktrace=1:halt_on_error=1:exitcode=98", EXINIT="", TERM="dumb")
 
 def run_impl(cmd, case_lines, timeout=120):
@@ -222,9 +224,9 @@ def run_impl(cmd, case_lines, timeout=120):
             complete.pop(); k = min(len(complete), len(pending) - 1)
         outs += complete
         if kind is None:
-            kind = "asan" if rc in (99, 98) or b"AddressSanitizer" in se or b"runtime error" in se else "signal(%d)" % rc
+            kind = "asan" if rc in (99, 98) or b"AddressSanitizer" in se or b"runtime error" in se else ("msan" if rc == 97 or b"MemorySanitizer" in se else "signal(%d)" % rc)
         detail = ""
-        m = re.search(rb"(ERROR: AddressSanitizer: [^\n]*|runtime error: [^\n]*)", se)
+        m = re.search(rb"(ERROR: AddressSanitizer: [^\n]*|runtime error: [^\n]*|WARNING: MemorySanitizer: [^\n]*)", se)
         if m: detail = m.group(1).decode("utf-8", "replace")
         fr = re.findall(rb"#\d+ 0x[0-9a-f]+ in (\w+) [^\n]*?([\w.]+\.[ch]):(\d+)", se)
         if fr: detail += " at " + " < ".join("%s(%s:%s)" % (a.decode(), b.decode(), c.decode()) for a, b, c in fr[:4])
